@@ -166,6 +166,7 @@ impl AsyncWrite for SimIo {
     fn poll_flush(self: Pin<&mut Self>, _cx: &mut Context<'_>) -> Poll<io::Result<()>> {
         world::with(|w| {
             w.pipe.flushes += 1;
+            w.stats.bump("io.flushes");
             if let Some((nth, kind)) = w.pipe.flush_fault {
                 if w.pipe.flushes >= nth {
                     if w.pipe.flushes == nth {
